@@ -1025,9 +1025,10 @@ fn op_bitmask(c: &Value, ev: &mut Map<String, Value>) -> Result<(), String> {
         .map(json_fixed::<4>)
         .collect::<Result<_, _>>()?;
     let surplus: Vec<u8> = if c["surplus"].is_null() { Vec::new() } else { json_bytes(&c["surplus"])? };
+    let f6: Option<u8> = c["f6"].as_u64().map(|x| x as u8);
     let o = guarded(|| -> Result<(Vec<Value>, Vec<Value>), String> {
         macro_rules! go {
-            ($ty:ident, $first:ident, $second:ident) => {{
+            ($ty:ident, $t:expr, $first:ident, $second:ident) => {{
                 let describe = |x: types::$ty| -> Value {
                     let dbg = format!("{x:?}");
                     let mut w = VecWriter::new();
@@ -1049,8 +1050,28 @@ fn op_bitmask(c: &Value, ev: &mut Map<String, Value>) -> Result<(), String> {
                     // the FIRST four octets whatever follows)
                     let mut full = w.to_vec();
                     full.extend_from_slice(&surplus);
-                    let mut r = SliceReader::from(&full[..]);
-                    let x = types::$ty::try_read(&mut r).map_err(|e| format!("{e:?}"))?;
+                    let x = match f6 {
+                        // through the per-type reader ...
+                        None => {
+                            let mut r = SliceReader::from(&full[..]);
+                            types::$ty::try_read(&mut r).map_err(|e| format!("{e:?}"))?
+                        }
+                        // ... or as a whole record with the given low six bits of its first octet (M clear, reserved
+                        // bits set: ignored by the layout) through AVP::try_read_greedy
+                        Some(f6) => {
+                            let mut rec = one_avp_record($t, &full);
+                            rec[0] = (rec[0] & 0xc0) | f6;
+                            let mut r = SliceReader::from(&rec[..]);
+                            let mut items = AVP::try_read_greedy(&mut r);
+                            if items.len() != 1 {
+                                return Err(format!("{} items", items.len()));
+                            }
+                            match items.remove(0) {
+                                Ok(AVP::$ty(x)) => x,
+                                other => return Err(format!("{other:?}")),
+                            }
+                        }
+                    };
                     let mut d = describe(x);
                     d["w"] = bytes_json(w);
                     wire.push(d);
@@ -1059,10 +1080,10 @@ fn op_bitmask(c: &Value, ev: &mut Map<String, Value>) -> Result<(), String> {
             }};
         }
         match kind {
-            "FramingCapabilities" => go!(FramingCapabilities, is_async_framing_supported, is_sync_framing_supported),
-            "BearerCapabilities" => go!(BearerCapabilities, is_digital_access_supported, is_analog_access_supported),
-            "BearerType" => go!(BearerType, is_analog_request, is_digital_request),
-            "FramingType" => go!(FramingType, is_analog_request, is_digital_request),
+            "FramingCapabilities" => go!(FramingCapabilities, 3, is_async_framing_supported, is_sync_framing_supported),
+            "BearerCapabilities" => go!(BearerCapabilities, 4, is_digital_access_supported, is_analog_access_supported),
+            "BearerType" => go!(BearerType, 18, is_analog_request, is_digital_request),
+            "FramingType" => go!(FramingType, 19, is_analog_request, is_digital_request),
             other => Err(format!("not a bitmask kind: {other}")),
         }
     });
